@@ -139,8 +139,24 @@ pub fn json_deep(depth: u32) -> Map<String, Value> {
 }
 
 pub fn gen_metadata(rng: &mut Rng) -> Map<String, Value> {
-    match rng.below(10) {
+    match rng.below(12) {
         0 => Map::new(),
+        10 => {
+            // large and poorly compressible: 70-400 KiB of random base64-like text in a few values
+            // (more than any codec's internal block / window of 32, 64 or 128 KiB)
+            let mut m = Map::new();
+            let total = rng.usize(70_000, 400_000);
+            let parts = rng.usize(1, 4);
+            for i in 0..parts {
+                let n = total / parts;
+                let s: String = (0..n)
+                    .map(|_| b"ABCDEFGHIJKLMNOPQRSTUVWXYZabcdefghijklmnopqrstuvwxyz0123456789+/"[rng.below(64) as usize] as char)
+                    .collect();
+                m.insert(format!("blob{i}"), Value::String(s));
+            }
+            m.insert(String::from("name"), Value::String(json_string(rng)));
+            m
+        }
         1 => json_deep(60),
         2 => {
             // many keys
@@ -335,6 +351,9 @@ pub enum SizeClass {
     /// 66k-140k tiles on consecutive ids alternating between a few short contents: more than 2^16
     /// entries that still compress into a single root directory
     HugeRegular,
+    /// a handful of tiles whose contents exceed 1 MiB (sometimes 2^24 bytes): two of equal length that
+    /// differ only in the middle, plus exact duplicates of one of them under other ids
+    HugeTiles,
 }
 
 fn content_pool(rng: &mut Rng, n: usize, max_len: u64, budget: usize) -> Vec<Rc<Vec<u8>>> {
@@ -477,8 +496,36 @@ pub fn gen_logical(rng: &mut Rng, class: SizeClass, internal: u8) -> Logical {
         SizeClass::Small => (rng.usize(2, 50), 100 * 1024, 2 << 20),
         SizeClass::Medium => (rng.usize(1000, 5000), 4096, 8 << 20),
         SizeClass::Spill => (rng.usize(20_000, 60_000), 48, 8 << 20),
-        SizeClass::HugeRegular => (0, 1, 1),
+        SizeClass::HugeRegular | SizeClass::HugeTiles => (0, 1, 1),
     };
+    if class == SizeClass::HugeTiles {
+        let len = if rng.chance(1, 4) { (1usize << 24) + rng.usize(1, 5000) } else { (1usize << 20) + rng.usize(1, 70_000) };
+        let a = rng.bytes(len);
+        let mut b = a.clone();
+        b[len / 2 + rng.usize(0, 100)] ^= 0x10; // same length, same first / last 64 KiB, different middle
+        let (a, b) = (Rc::new(a), Rc::new(b));
+        let small = Rc::new(rng.bytes(rng.clone().usize(1, 50)));
+        let mut tiles = BTreeMap::new();
+        let base = rng.below(1 << 30);
+        tiles.insert(base, a.clone());
+        tiles.insert(base + 1, small.clone());
+        tiles.insert(base + 3, b);
+        tiles.insert(base + 4, a.clone()); // duplicate of the first huge content, not adjacent
+        tiles.insert(base + 9, small);
+        tiles.insert(base + 10, a);
+        return Logical {
+            tiles,
+            meta: gen_metadata(rng),
+            tile_type: rng.below(6) as u8,
+            tile_compression: rng.below(5) as u8,
+            internal_compression: internal,
+            min_zoom: rng.next() as u8,
+            max_zoom: rng.next() as u8,
+            center_zoom: rng.next() as u8,
+            coords: gen_coords(rng),
+            class: format!("HugeTiles/{len}"),
+        };
+    }
     if class == SizeClass::HugeRegular {
         let n = *rng.pick(&[65_535u64, 65_536, 65_537, 70_000, 100_000, 131_073]);
         let k = rng.usize(2, 3);
@@ -521,7 +568,7 @@ pub fn gen_logical(rng: &mut Rng, class: SizeClass, internal: u8) -> Logical {
     } else {
         gen_ids(rng, n)
     };
-    let dup_mode = rng.below(6);
+    let dup_mode = rng.below(7);
     let pool_n = match (class, dup_mode) {
         (SizeClass::Spill, _) => ids.len(), // mostly unique contents (entropy in lengths)
         (_, 0) => ids.len().max(1),         // all unique
@@ -545,6 +592,19 @@ pub fn gen_logical(rng: &mut Rng, class: SizeClass, internal: u8) -> Logical {
             .collect();
         let start = if rng.chance(1, 2) { rng.below(1 << 20) } else { R::zoom_base(rng.range(2, 20) as u8) - 2 };
         ids = (start..start + ids.len() as u64).collect();
+    }
+    if dup_mode == 6 && class != SizeClass::Spill && !ids.is_empty() {
+        // a short run of one content, and the same content again exactly run + k*2^32 ids after the run's
+        // start with nothing in between (id distances that alias under 32-bit arithmetic)
+        let p = rng.below(1 << 28);
+        let r = rng.range(1, 4);
+        let k = rng.range(1, 3);
+        let q = p + r + (k << 32);
+        ids = (p..p + r).collect();
+        ids.push(q);
+        ids.push(q + 1 + rng.below(3));
+        ids.push(q + (1 << 32));
+        pool = content_pool(rng, 2, 64, 4096);
     }
     let mut tiles = BTreeMap::new();
     let mut prev_pick = 0usize;
@@ -570,6 +630,15 @@ pub fn gen_logical(rng: &mut Rng, class: SizeClass, internal: u8) -> Logical {
                         prev_pick = rng.usize(0, pool.len() - 1);
                     }
                     pool[prev_pick].clone()
+                }
+                6 => {
+                    // run and its far twin share pool[0]; the two ids behind the twin get pool[1] / pool[0]
+                    let nrun = ids.len() - 3;
+                    if i < nrun || i == nrun || i == nrun + 2 {
+                        pool[0].clone()
+                    } else {
+                        pool[1 % pool.len()].clone()
+                    }
                 }
                 _ => pool[rng.usize(0, pool.len() - 1)].clone(),
             }
@@ -732,6 +801,13 @@ pub struct ForeignOpts {
     pub raw_metadata: Option<Vec<u8>>,
     /// store identical bytes at several different offsets (a valid but not deduplicated writer)
     pub dup_contents: bool,
+    /// some entries address a PREFIX of another entry's content (same offset, shorter length)
+    pub prefix_entries: bool,
+    /// entries per first-level leaf (None: balanced tree)
+    pub leaf_entries: Option<usize>,
+    /// gzip only: pad leaf streams above 32 KiB (FEXTRA header field) so that their length is 32768*k + 4,
+    /// i.e. only trailer bytes lie behind a 32 KiB chunk boundary, and store the next leaf directly behind
+    pub align_gzip_leaves: bool,
 }
 
 /// Independent spec-level archive writer. Produces bytes + ground truth.
@@ -807,10 +883,11 @@ pub fn gen_foreign(rng: &mut Rng, o: &ForeignOpts) -> Foreign {
             }
         };
         let run = if rng.chance(1, 5) { rng.range(2, 30) as u32 } else { 1 };
+        let length = if o.prefix_entries && lens[ci] > 1 && rng.chance(1, 4) { rng.range(1, u64::from(lens[ci]) - 1) as u32 } else { lens[ci] };
         entries.push(REntry {
             tile_id: id,
             offset: offs[ci],
-            length: lens[ci],
+            length,
             run_length: run,
         });
         let gap = if rng.chance(2, 3) { 0 } else { rng.log_range(1, 1 << 16) };
@@ -831,17 +908,24 @@ pub fn gen_foreign(rng: &mut Rng, o: &ForeignOpts) -> Foreign {
         // chunk `level` into leaves and replace by pointers
         let remaining_levels = want_depth - lvl;
         let target_children = ((level.len() as f64).powf(1.0 / (f64::from(remaining_levels) + 1.0)).ceil() as usize).max(2);
-        let chunk = (level.len() / target_children).max(1);
+        let chunk = if lvl == 1 { o.leaf_entries.unwrap_or((level.len() / target_children).max(1)) } else { (level.len() / target_children).max(1) };
         let mut ptrs: Vec<REntry> = Vec::new();
         let mut i = 0;
         while i < level.len() {
             let c = rng.usize((chunk / 2).max(1), chunk + chunk / 2 + 1).min(level.len() - i);
             let list = &level[i..i + c];
-            if o.gaps && rng.chance(1, 5) {
+            if o.gaps && !o.align_gzip_leaves && rng.chance(1, 5) {
                 let g = rng.usize(1, 7);
                 leaf_section.extend(std::iter::repeat(0xEE).take(g));
             }
-            let b = enc(list, rng);
+            let mut b = enc(list, rng);
+            if o.align_gzip_leaves && o.codec == R::C_GZIP && b.len() > 32_768 {
+                let mut pp = CodecParams::plain();
+                let s0 = R::codec_compress(o.codec, &R::dir_encode(list), &pp).expect("codec").len();
+                let x = (4 + 2 * 32_768 - (s0 + 2) % 32_768) % 32_768;
+                pp.gzip_extra = Some(vec![0u8; x]);
+                b = R::codec_compress(o.codec, &R::dir_encode(list), &pp).expect("codec");
+            }
             ptrs.push(REntry {
                 tile_id: list[0].tile_id,
                 offset: leaf_section.len() as u64,
@@ -1010,5 +1094,8 @@ pub fn gen_foreign_opts(rng: &mut Rng, codec: u8, max_entries: usize) -> Foreign
         offset_style: rng.below(3) as u8,
         raw_metadata: None,
         dup_contents: rng.chance(1, 4),
+        prefix_entries: rng.chance(1, 5),
+        leaf_entries: None,
+        align_gzip_leaves: false,
     }
 }
